@@ -189,7 +189,27 @@ def run(ctx, env):
             ctx.ob("R15.5", owner, "cached-template-copied:%s.%s" % (adt_s, hit[2]), False,
                    "%s deep-copies the template it looks up in %s.%s (%s) every time a data set of that id is decoded — the copy is as large as the cached template, however small the set" % (owner, adt_s, hit[2], c.nsyn.rsplit("::", 1)[1]),
                    site=b.line(blk))
-    ctx.ob("R15.5", "decode-path", "cache-lookups-borrowed", ncl == 0, "%d clone(s) of cache lookups on the decode path" % ncl)
+    # ... nor is a whole template map / parser state copied (a per-packet snapshot costs the size of the cache)
+    cf = cache_fields(prog)
+    map_tys = set()
+    for adt, fs in cf.items():
+        a = prog.adts.get(adt)
+        for f in (a["variants"][0]["fields"] if a else []):
+            if f["name"] in fs:
+                map_tys.add(f["ty"])
+    for b in sorted(bodies.values(), key=lambda x: x.path):
+        if b.derived:
+            continue
+        for blk, t, c in b.calls():
+            if c is None or not (c.nsyn in CLONERS or c.npath in CLONERS) or not t.get("argtys"):
+                continue
+            ty = t["argtys"][0].replace("&mut ", "").replace("&", "").strip()
+            if ty in map_tys or ty in _PADTS or ty == "NetflowParser":
+                ncl += 1
+                ctx.ob("R15.5", re.sub(r"(::\{closure#\d+\})+$", "", b.path), "cache-copied:%s" % short_ty(ty), False,
+                       "%s copies %s (%s) on the parse path: the cost of a packet then grows with everything the parser has cached, not with the packet" % (b.path, short_ty(ty), c.nsyn.rsplit("::", 1)[1]),
+                       site=b.line(blk))
+    ctx.ob("R15.5", "decode-path", "cache-lookups-borrowed", ncl == 0, "%d clone(s) of cache lookups / cache maps on the decode path" % ncl)
     # R15.3
     pn = prog.adts.get("ParsedNetflow")
     if ctx.anchor("R15.3", "ParsedNetflow", pn):
